@@ -48,3 +48,32 @@ func VX_C12_MD5(args []int) {
 	}
 	vxCover("c12.md5")
 }
+
+func init() { vxRegister("VX_C12_MD5Pipe", VX_C12_MD5Pipe) }
+
+// VX_C12_MD5Pipe: the integrity filter inside a transfer pipe (one or two
+// integrity stages): whatever is cut off the packed payload - down to nothing -
+// the pipe does not hand out the original or an empty payload as valid.
+// args: stages(1/2), n
+func VX_C12_MD5Pipe(args []int) {
+	stages, n := args[0], args[1]
+	p := xfer.NewXferPipe()
+	for k := 0; k < stages; k++ {
+		vxAssume(p.Append('5') == nil)
+	}
+	x := vxBytes("x", n)
+	orig := append([]byte{}, x...)
+	packed, err := p.OnPack(x)
+	vxAssert(err == nil && len(packed) == n+16*stages, "each integrity stage appends a 16-byte checksum")
+	back, err := p.OnUnpack(append([]byte{}, packed...))
+	vxAssert(err == nil && bytes.Equal(back, orig), "untouched payload is restored exactly")
+	cut := vxChoose("cut", len(packed)) // keep cut bytes: 0 .. len-1
+	wire := append([]byte{}, packed[:cut]...)
+	back, err = p.OnUnpack(wire)
+	if cut < 16 {
+		vxAssert(err != nil, "a payload too short to carry its checksum (down to nothing) is rejected")
+	} else {
+		vxAssert(err != nil || !bytes.Equal(back, orig), "a truncated payload is not accepted as the original")
+	}
+	vxCover("c12.md5pipe")
+}
